@@ -126,7 +126,9 @@ func TestRegression(t *testing.T) {
 		if msg := check(c[0], c[1]); msg != "" {
 			t.Error(msg)
 		}
-		ev.Case(nontrivial(c[1]), ev.Hash(c[0], c[1]), func() string { return fmt.Sprintf("base=%q url=%q -> %q", c[0], c[1], fsutil.ResolveUrlPath(c[0], c[1])) })
+		ev.Case(nontrivial(c[1]), ev.Hash(c[0], c[1]), func() string {
+			return fmt.Sprintf("base=%q url=%q -> %q", c[0], c[1], fsutil.ResolveUrlPath(c[0], c[1]))
+		})
 	}
 }
 
